@@ -79,8 +79,9 @@ Definition ekind_eqb (a b : ekind) : bool :=
   | _, _ => false
   end.
 
-(* an error: its kind, the exact message bytes, whether errors.Is(err, ErrorParsing) *)
-Record err := mkErr { e_kind : ekind; e_msg : str; e_parsing : bool }.
+(* an error: its kind, the arguments of its message format, the exact message bytes, whether
+   errors.Is(err, ErrorParsing) *)
+Record err := mkErrA { e_kind : ekind; e_args : list str; e_msg : str; e_parsing : bool }.
 
 Inductive result (A : Type) := Ok (a : A) | Err (e : err).
 Arguments Ok {A} a.
@@ -102,6 +103,13 @@ Definition msg_not_kv (key : str) : str :=
   s2l "Argument error for option '" ++ key ++ s2l "': Should be of type 'key=value'!".
 Definition msg_wrong_value (name validq : str) : str :=
   s2l "wrong value for option '" ++ name ++ s2l "', valid values are " ++ validq.
+
+Definition e_missing_arg (key : str) : err := mkErrA EMissingArg [key] (msg_missing_arg key) true.
+Definition e_arg_with_dash (key : str) : err := mkErrA EArgWithDash [key] (msg_arg_with_dash key) true.
+Definition e_conv_int (key v : str) : err := mkErrA EConvInt [key; v] (msg_conv_int key v) false.
+Definition e_conv_float (key v : str) : err := mkErrA EConvFloat [key; v] (msg_conv_float key v) false.
+Definition e_not_kv (key : str) : err := mkErrA ENotKeyValue [key] (msg_not_kv key) false.
+Definition e_wrong_value (name validq : str) : err := mkErrA EWrongValue [name; validq] (msg_wrong_value name validq) false.
 
 (* strconv.Atoi, base 10, 64-bit int *)
 Definition digit_val (c : N) : option Z :=
@@ -170,13 +178,13 @@ Section WithFloat.
               | Some (n1, n2) =>
                   match atoi n1, atoi n2 with
                   | Some i1, Some i2 =>
-                      if Z.ltb i1 i2 then Ok (seqZ i1 i2) else Err (mkErr EConvInt (msg_conv_int used e) false)
-                  | _, _ => Err (mkErr EConvInt (msg_conv_int used e) false)
+                      if Z.ltb i1 i2 then Ok (seqZ i1 i2) else Err (e_conv_int used e)
+                  | _, _ => Err (e_conv_int used e)
                   end
               | None =>
                   match atoi e with
                   | Some i => Ok [i]
-                  | None => Err (mkErr EConvInt (msg_conv_int used e) false)
+                  | None => Err (e_conv_int used e)
                   end
               end)
              (fun l => bind (conv_ints used a') (fun l' => Ok (l ++ l')))
@@ -188,7 +196,7 @@ Section WithFloat.
     | e :: a' =>
         match pf e with
         | Some f => bind (conv_floats used a') (fun l' => Ok (f :: l'))
-        | None => Err (mkErr EConvFloat (msg_conv_float used e) false)
+        | None => Err (e_conv_float used e)
         end
     end.
 
@@ -200,7 +208,7 @@ Section WithFloat.
     | e :: a' =>
         match split_first 61 e with
         | Some (k, v) => save_map lower used (map_set (if lower then to_lower k else k) v m) a'
-        | None => (m, Some (mkErr ENotKeyValue (msg_not_kv used) false))
+        | None => (m, Some (e_not_kv used))
         end
     end.
 
@@ -217,19 +225,19 @@ Section WithFloat.
         | _, _ => Ok st
         end
     | a0 :: _ =>
-        if negb (valid_ok sp a) then Err (mkErr EWrongValue (msg_wrong_value (os_name sp) (os_validq sp)) false)
+        if negb (valid_ok sp a) then Err (e_wrong_value (os_name sp) (os_validq sp))
         else
         match os_kind sp, o_val st with
         | (KStr | KStrOpt), _ => upd (VStr a0)
         | (KInt | KIntOpt), _ =>
             match atoi a0 with
             | Some i => upd (VInt i)
-            | None => Err (mkErr EConvInt (msg_conv_int (o_used st) a0) false)
+            | None => Err (e_conv_int (o_used st) a0)
             end
         | (KFloat | KFloatOpt), _ =>
             match pf a0 with
             | Some f => upd (VFloat f)
-            | None => Err (mkErr EConvFloat (msg_conv_float (o_used st) a0) false)
+            | None => Err (e_conv_float (o_used st) a0)
             end
         | KStrRep, VStrs l => upd (VStrs (l ++ a))
         | KIntRep, VInts l => bind (conv_ints (o_used st) a) (fun ii => upd (VInts (l ++ ii)))
